@@ -277,10 +277,12 @@ CHECKS["C09"] = {
 CHECKS["C10"] = {
     "quick": {"tests": [{"test": "TestC10", "checks": 20000, "subchecks": 1},
                         {"test": "TestC10Deep", "checks": 150, "subchecks": 1},
+                        {"test": "TestC10Huge", "checks": 6, "subchecks": 1},
                         {"test": "TestC10Enum", "checks": 1, "subchecks": 66364}]},
     "thorough": {"shards": 16, "timeout": 3000, "tests": [
         {"test": "TestC10", "checks": 200000, "subchecks": 1},
         {"test": "TestC10Deep", "checks": 3000, "subchecks": 1},
+        {"test": "TestC10Huge", "checks": 24, "subchecks": 1, "once": True},
         {"test": "TestC10Enum", "checks": 1, "subchecks": 1, "nocount": True, "env": {"VERIF_C10_AB": "12", "VERIF_C10_ABC": "7"}, "once": True},
     ]},
     "rule": ("texts of length 0..48 (10%: up to 160) from the C09 families with drawn (minLen, maxLen), sa/lcp computed by "
